@@ -76,11 +76,23 @@ CHECKS = {
         'dominated by check_is_fitted naming it (NotFittedError before use), and that no closure/lambda is stored on self. '
         "scikit-learn's own get_params/set_params/clone introspection and bit-level pickle equality are NOT decided."),
   note=TB),
+ 'C20': dict(
+  technique=ALG + '; library axioms (cholesky, eigh, orthogonality) as rewrite rules; option-table enumeration by constant-specialised abstract interpretation; path-condition rules',
+  text=('Decides: every return path of components_from_metric satisfies L^T L = M in the matrix algebra (Cholesky needs the '
+        'transpose, eigen branch Diag(sqrt(max(0,w))) V^T with broadcasting orientation, diagonal shortcut), with max(0,x)~x only for '
+        'a spectrum that passed _check_sdp_from_eigen on that path; symmetry is tested before every return and rejects with '
+        'ValueError, a spectrum below -tol raises NonPSDError (a LinAlgError); _initialize_metric_mahalanobis for every option x '
+        'points/tuples x return_inverse x strict_pd returns the documented form (I; exactly one pseudo-inversion of cov(distinct points, '
+        'rowvar=False); make_spd_matrix; the checked copy) as the pair (X, X^-1) in that order, dispatches every accepted value, '
+        'rejects others with ValueError, and never returns a non-definite matrix under strict_pd; ITML/LSML/SDML pass strict_pd=True '
+        'and MMC does not; _initialize_components dispatches/rejects per documented table, _auto_select_init is the documented three-way '
+        'rule, array init shape checks exist; SCML basis option tables agree with their dispatch. Numeric tolerance behaviour is NOT decided.'),
+  note=TB),
 }
 
 _PENDING = 'check not built yet in this revision of /verif (see DESIGN.md section 9 build order); nothing is claimed for it'
 NOT_APPLICABLE = {p: _PENDING for p in
-  ['C07','C08','C09','C10','C11','C12','C13','C14','C15','C19','C20']}
+  ['C07','C08','C09','C10','C11','C12','C13','C14','C15','C19']}
 NOT_APPLICABLE['C16'] = ('optimality of a cut-off over a labelled multiset of distances with ties is a property of runtime '
                          'values; no structural necessary condition of it exists that a sound static rule can name without '
                          'also firing on correct tie-aware rewrites; its parameter-validation sentence is checked as C06(7)')
